@@ -223,7 +223,10 @@ func (l *Lab) Gen(r *rand.Rand, o LabOpts) *LabCase {
 	for _, t := range tops {
 		addNode(t, 0)
 	}
-	if o.Fuzz && r.IntN(3) == 0 {
+	// (not in benchmark programs: their recording run selects no test and no fuzz target
+	// (-run '^$'), so a fuzz node would first run - and append its entries, possibly behind
+	// a planted half-written tail - in the judged process)
+	if o.Fuzz && r.IntN(3) == 0 && !lc.Bench {
 		for _, pk := range l.P.Shape.Pkgs {
 			if pk.Dir == l.PkgDir {
 				for _, f := range pk.Files {
